@@ -21,7 +21,7 @@ FVec == LET m == {<<k, Val(k)>> : k \in fset}
             T == EncDictE(items, fty[2], fforms)
             B == Write(T, <<1>>, [magic |-> "generic", idx |-> FALSE, crc |-> TRUE, cache |-> FALSE, size |-> 1, ob |-> 2, hashes |-> FALSE])
             D == DecDictE(T, 1, fty[2])
-        IN [kind |-> fty[1], n |-> fty[2], forms |-> fforms, boc |-> BytesToHex(B), items |-> ItemsJson(m),
+        IN [kind |-> fty[1], n |-> fty[2], forms |-> fforms, boc |-> BytesToHex(B), items |-> ItemsLt(m),
             selfcheck |-> (D.ok /\ D.items = items)]
 FNext == fout = "todo" /\ fout' = "done" /\ UNCHANGED <<fty, fset, fforms>> /\ PrintT(<<"VEC", ToJson(FVec)>>)
 FSpec == FInit /\ [][FNext]_<<fty, fset, fforms, fout>>
